@@ -1,6 +1,7 @@
 (* C03 -- a Stack created with capacity k never holds more than k elements.
    Property theorems only; proofs in StackCorollaries.v / StackRefine.v. *)
 From Stackage Require Import Base Generated StackImpl StackSpec StackSpecLemmas StackRefine StackCorollaries TransferImpl TransferSpec TransferProofs.
+From Stackage Require Import PushTie.
 Open Scope Z_scope.
 
 (* Every state reachable from a constructor call with capacity k >= 1 by ANY
@@ -100,6 +101,41 @@ Proof. exact srun_within. Qed.
 Print Assumptions c03_spec_within.
 
 Definition res_len {V U} (r : res (raw V * U)) : option Z := match r with Ok (r', _) => Some (zlen r') | _ => None end.
+
+
+(* the model's push loop IS the loop of the source: one iteration of
+   stack.genericAppend, regenerated from /repo (the body of its single loop,
+   with canPushNester and isFull regenerated too), is what the model's
+   iteration does - for every option word, capacity, content and value *)
+Theorem c03_generic_push_loop_is_the_source_loop :
+  forall (V : Type) (isstack : V -> bool) (c : scfg) (r : raw V) (x : V) (xs : list V),
+    generic_append V isstack c r (x :: xs) =
+    match g_genericAppend_body (g_canPushNester (positive c c_nnest) (isstack x)) (g_isFull (zlen r) (k_cap c)) with
+    | TCut 0 _ _ => generic_append V isstack c (r ++ [SVal x]) xs
+    | _ => generic_append V isstack c r xs
+    end.
+Proof. exact generic_append_iteration. Qed.
+Print Assumptions c03_generic_push_loop_is_the_source_loop.
+
+(* ... and so is the loop used when a push policy is installed
+   (stack.methodAppend): room is tested before the policy is consulted, a
+   rejection records the error and ends the batch (cut 0: "r.setErr(err);
+   break"), an approval appends (cut 1) *)
+Theorem c03_policy_push_loop_is_the_source_loop :
+  forall (V : Type) (pol : N -> V -> option N) (p : N) (c : scfg) (r : raw V) (x : V) (xs log : list V),
+    method_append V pol p c r (x :: xs) log =
+    match g_methodAppend_body (g_isFull (zlen r) (k_cap c)) (match pol p x with Some _ => true | None => false end) with
+    | TCut 0 _ _ => (r, pol p x, log ++ [x])
+    | TCut 1 _ _ => method_append V pol p c (r ++ [SVal x]) xs (log ++ [x])
+    | _ => method_append V pol p c r xs log
+    end /\
+    g_methodAppend_body_tails = ["r.setErr(err); break"%string; "*r = append(*r, x[i]); pct++"%string] /\
+    g_genericAppend_body_tails = ["*r = append(*r, x[i]); pct++"%string].
+Proof.
+  intros. split; [exact (method_append_iteration V pol p c r x xs log)|].
+  split; [exact method_append_cut_tails|exact generic_append_cut_tails].
+Qed.
+Print Assumptions c03_policy_push_loop_is_the_source_loop.
 
 Example c03_nonvacuous :
   let ops := [OPush [Some 1; Some 2; Some 3]; OPop; OInsert (Some 9) 0; OPush [Some 4; Some 5]] in
